@@ -727,3 +727,14 @@ def _gdm(e, st, node, m):
 @prim('util.ClusterResult', 'ClusterResult')
 def _cluster_result(e, st, node, **kw):
     return e.new_obj(st, RecV('ClusterResult', kw))
+
+
+@prim('mpi.ops.striped_array_mean')
+def _striped_mean(e, st, node, x):
+    """serial mode (mpi.size()==1): the plain mean"""
+    return _mean(e, st, node, x)
+
+
+@prim('mpi.ops.striped_array_max')
+def _striped_max(e, st, node, x):
+    return _reduce_extreme(e, st, node, e.deref(st, x), True)
